@@ -13,7 +13,7 @@ From C10 Require Import Generated Model.
 Import ListNotations.
 Open Scope Z_scope.
 
-Definition the_flags : flags := mkFlags kgsym_eq_guard kgchar_eq_guard literal_deepcopy.
+Definition the_flags : flags := mkFlags kgsym_eq_guard kgchar_eq_guard literal_deepcopy literal_nested_built.
 
 Fixpoint val_of_sx (fuel : nat) (x : sx) : option val :=
   match fuel with O => None | S n =>
@@ -27,6 +27,16 @@ Fixpoint val_of_sx (fuel : nat) (x : sx) : option val :=
       if is_tag "u" t then Some VUndef else
       if is_tag "ref" t then match rest with [SZ z] => Some (VRef (Z.to_nat z)) | _ => None end else
       if is_tag "f" t then match rest with [SZ z] => Some (VFn z) | _ => None end else
+      if is_tag "inf" t then match rest with [SZ z] => Some (VInf (Z.eqb z 1)) | _ => None end else
+      if is_tag "nan" t then match rest with [SZ z] => Some (VNan z) | _ => None end else
+      if is_tag "dlit" t then
+        option_map VDLit
+          ((fix go (l : list sx) : option (list val) :=
+              match l with
+              | [] => Some []
+              | a :: r => match val_of_sx n a, go r with Some v, Some vs => Some (v :: vs) | _, _ => None end
+              end) rest)
+      else
       if is_tag "l" t then
         option_map VList
           ((fix go (l : list sx) : option (list val) :=
@@ -83,10 +93,19 @@ Definition op_of_sx (x : sx) : option op :=
   | _ => None
   end.
 
-Fixpoint ops_of_sx (l : list sx) : option (list op) :=
+Definition xop_of_sx (x : sx) : option xop :=
+  match x with
+  | SL [SS t; a; o] =>
+      if is_tag "eachdo" t then
+        match arg_of_sx 100 a, op_of_sx o with Some d, Some oo => Some (XEachDo d oo) | _, _ => None end
+      else option_map XOp (op_of_sx x)
+  | _ => option_map XOp (op_of_sx x)
+  end.
+
+Fixpoint ops_of_sx (l : list sx) : option (list xop) :=
   match l with
   | [] => Some []
-  | a :: r => match op_of_sx a, ops_of_sx r with Some o, Some os => Some (o :: os) | _, _ => None end
+  | a :: r => match xop_of_sx a, ops_of_sx r with Some o, Some os => Some (o :: os) | _, _ => None end
   end.
 
 Fixpoint sx_of_val (v : val) : sx :=
@@ -100,6 +119,9 @@ Fixpoint sx_of_val (v : val) : sx :=
   | VUndef => SL [sx_w "u"]
   | VRef l => SL [sx_w "ref"; sx_nat l]
   | VFn i => SL [sx_w "f"; SZ i]
+  | VInf b => SL [sx_w "inf"; sx_bool b]
+  | VNan i => SL [sx_w "nan"; SZ i]
+  | VDLit l => SL (sx_w "dlit" :: map sx_of_val l)
   end.
 
 Definition sx_of_res (r : res val) : sx :=
@@ -108,6 +130,7 @@ Definition sx_of_res (r : res val) : sx :=
   | RErr => SL [sx_w "err"]
   | RBad => SL [sx_w "bad"]
   | RVisits l => SL (sx_w "visits" :: map sx_of_val l)
+  | RVisitsErr l => SL (sx_w "visitserr" :: map sx_of_val l)
   end.
 
 Definition sx_of_dict (d : dict) : sx :=
@@ -121,7 +144,7 @@ Definition dispatch (x : sx) : sx :=
   | SL (SS t :: rest) =>
       if is_tag "run" t then
         match ops_of_sx rest with
-        | Some ops => SL (sx_w "ok" :: map sx_of_step (trace (model_impl the_flags) the_flags ops init_state))
+        | Some ops => SL (sx_w "ok" :: map sx_of_step (xtrace (model_impl the_flags) the_flags ops init_state))
         | None => sx_err "ops"
         end
       else sx_err "op"
